@@ -97,7 +97,10 @@ def judge(data, block, fault, with_hash, out, viol, stats):
                 stats["socks5_fault_free_ok"] += 1
     else:
         stats["faulted"] += 1
-        if recv_ok:
+        if not rj and (fault or {}).get("kind") in ("closebeforeopen", "bigblock", "earlyclose"):
+            # the peer has closed the session: "the receiver does not report success but a corruption or protocol error" - it must report
+            viol.append(("receiver-reports-nothing fault=%s" % fault["kind"], "the peer closed the in-band session before the content was complete and the receiver's job never finished (no error, no result)", w))
+        elif recv_ok:
             stats["faulted_but_bytes_intact"] += 1   # e.g. a rejected duplicate: the bytes are right, success is acceptable
         else:
             stats["fault_detected"] += 1
@@ -165,6 +168,11 @@ def main(tier, replay=None):
                     jobs.append((size, b, "random", f, True))
                     if kind in ("drop", "earlyclose", "duplicate"):
                         jobs.append((size, b, "random", f, False))
+    # the session is closed before it was opened / the open is refused and the sender gives up
+    for size in (5, 5000):
+        for kind in ("closebeforeopen", "bigblock"):
+            for wh in (True, False):
+                jobs.append((size, 4096, "random", {"kind": kind, "at": 0}, wh))
     # SOCKS5 bytestreams: fault-free matrix, then single faults in the byte stream behind the SOCKS5 negotiation
     for size in (1, 2, 4095, 4096, 4097, 65536, 200000) if tier == "quick" else (1, 2, 3, 100, 4095, 4096, 4097, 8192, 65535, 65536, 65537, 200000, 1048577):
         for ck in ("zeros", "random", "all"):
